@@ -62,8 +62,13 @@ CaseWithReturn == {M(<<InsLit("const/4", 0, 0, 0), [I(0) EXCEPT !.op = sw, !.a =
                         [I(0) EXCEPT !.op = "goto", !.t = 10], Br("if-lez", 2, 7), InsLit("const/4", 0, 0, 7), Ret(0), InsLit("const/4", 0, 0, 5),
                         [I(0) EXCEPT !.op = "goto", !.t = 10], InsLit("const/4", 0, 0, 3), InsLit("add-int/lit8", 0, 0, 1), Ret(0)>>, 3, 1, <<"I", "I">>, "I") :
                      sw \in {"packed-switch", "sparse-switch"}}
+\* the sign of a difference tested against zero (p0 = v1, p1 = v2):  d = a - b; if (d TEST 0) return 1; return 0
+\* -- not the comparison of a with b when the 32-bit difference wraps around
+DiffTested == {M(<<sb, Br("if-" \o tst \o "z", 0, 5), InsLit("const/4", 0, 0, 0), Ret(0), InsLit("const/4", 0, 0, 1), Ret(0)>>, 3, 1, <<"I", "I">>, "I") :
+                 sb \in {Ins("sub-int", 0, 1, 2), Ins("sub-int", 0, 2, 1), InsLit("rsub-int/lit8", 0, 1, 100), InsLit("add-int/lit8", 0, 1, -100), InsLit("rsub-int", 0, 2, -1)},
+                 tst \in {"lt", "ge", "gt", "le"}}
 Methods ==
-  Aliased \cup Propagated \cup Widened \cup Hoisted \cup ParamCopy \cup ExitByTakenBranch \cup CaseWithReturn \cup
+  Aliased \cup Propagated \cup Widened \cup Hoisted \cup ParamCopy \cup ExitByTakenBranch \cup CaseWithReturn \cup DiffTested \cup
   {M(<<Ins(nm \o "-int", 0, 2, 3), Ret(0)>>, 4, 2, <<"I", "I">>, "I") : nm \in IntAlu}
   \cup {M(<<Ins(nm \o "-int/2addr", 2, 3, 0), Ret(2)>>, 4, 2, <<"I", "I">>, "I") : nm \in IntAlu}
   \cup {M(<<InsLit(nm \o "-int/lit16", 0, 1, lt), Ret(0)>>, 2, 1, <<"I">>, "I") : nm \in Lit16Alu, lt \in Lits16}
